@@ -599,7 +599,7 @@ func TestCheck(t *testing.T) {
 				t.Skip("walk does not fit this size")
 			}
 			cs := Case{Tokens: toks, Compact: spec.Compact, Layers: spec.Layers, Level: "image",
-				Rot: rapid.IntRange(0, 3).Draw(t, "rot"), Scale: rapid.IntRange(2, 5).Draw(t, "scale"), Quiet: rapid.IntRange(2, 10).Draw(t, "quiet")}
+				Rot: rapid.IntRange(0, 3).Draw(t, "rot"), Scale: rapid.IntRange(2, 5).Draw(t, "scale"), Quiet: rapid.SampledFrom([]int{0, 0, 1, 2, 2, 3, 4, 6, 10}).Draw(t, "quiet")}
 			if spec.Layers > 16 && cs.Scale > 3 {
 				cs.Scale = 3
 			}
